@@ -419,9 +419,20 @@ def cpl_layout_rule(ctx):
     return res
 
 
+def net_arg_rule(ctx):
+    """CPL-NETARG (= OWN-ARG in nflows/nn/nets, shared with C13): the library's own conditioner networks do not write
+    the tensor they are given.  A coupling layer hands the identity split to the conditioner and then copies that
+    same tensor into the outputs; an in-place operation on the network's input (an `inplace=True` dropout /
+    activation on the first layer, `inputs += ..`) rewrites the identity features (assumption A-NET covers user
+    networks; the repository's nets are checked)."""
+    from .own_rules import arg_findings
+
+    return arg_findings(ctx, "CPL-NETARG", "the conditioner receives the coupling layer's identity split, which is copied to the outputs afterwards: the identity features leave the layer changed", lambda rel: "/nn/nets/" in "/" + rel)
+
+
 register(
     "C07",
-    [part_rule, flow_rule, hooks_rule, _late_elem, cpl_layout_rule],
+    [part_rule, flow_rule, hooks_rule, _late_elem, cpl_layout_rule, net_arg_rule],
     "CPL-PART: the two index buffers of CouplingTransform are masked_select of the same arange(features) by predicates of the "
     "same mask that the condition normaliser proves complementary (a partition for every mask and any numeric values, entries "
     "> 0 transformed). CPL-COND/COPY/SCAT: information-flow analysis of CouplingTransform.forward and .inverse with labels "
